@@ -35,6 +35,8 @@ inductive GOp where
   | cut (a b : Nat)            -- `a` gives up its reference to `b` (the value held inside `a` is dropped)
   | collect
   | eot                        -- an outermost transaction of the library ends here (if none is open): collect
+  | sdeps (n : Nat) (ds : List Nat)   -- scheduler view: node `n` was created with `dependencies = ds` (no collector effect)
+  | sadd (n d : Nat)                  -- scheduler view: `add_dependency(n, d)` (no collector effect)
   deriving Repr, DecidableEq
 
 def GOp.toOp : GOp → Op
@@ -47,6 +49,8 @@ def GOp.toOp : GOp → Op
   | .cut a b => .unedge a b
   | .collect => .collect
   | .eot => .collect
+  | .sdeps _ _ => .dump
+  | .sadd _ _ => .dump
 
 /-- what a script name denotes: which collector objects the harness holds handles on through it -/
 inductive Ent where
@@ -75,9 +79,18 @@ structure B where
   ops : List GOp := []
 
 def B.emit (b : B) (l : List GOp) : B := { b with ops := b.ops ++ l }
+/-- which of the edges of a new object are its `Node::dependencies` (the scheduler's upstream list, in order);
+    the other edges are handles captured by its update closure.  `none`: not a scheduler node. -/
+def schedDeps (kind : String) (targets : List Nat) : Option (List Nat) :=
+  if kind == "Listener::new" || kind == "StreamLoop::new" then none
+  else if kind == "Stream::merge" then some ((targets.take 1) ++ ((targets.drop 2).take 1))
+  else some (targets.take 1)
+
 /-- allocate a node of the given kind with one counted+reported edge per listed target -/
 def B.node (b : B) (kind : String) (targets : List Nat) : B × Nat :=
-  ({ next := b.next + 1, ops := b.ops ++ [GOp.new kind] ++ targets.map (GOp.edge b.next) }, b.next)
+  ({ next := b.next + 1,
+     ops := b.ops ++ [GOp.new kind] ++ targets.map (GOp.edge b.next) ++
+       (match schedDeps kind targets with | some ds => [GOp.sdeps b.next ds] | none => []) }, b.next)
 
 /-- temporary handle on the stream a name denotes (as `Api::s` clones it): ops, node id -/
 def streamRef : Ent → Option (List GOp × Nat)
@@ -146,13 +159,49 @@ def mkLift2 (b : B) (ua ub : Nat) : B × Nat × Nat :=
   let (b, h) := b.node "Cell::hold" [m3, m3, m3]
   (b.emit [.dec m1, .dec m2, .dec mg, .dec m3], h, m3)
 
+/-- a cell operand of a lift: its update stream, and its hold node when it is an intermediate cell the call owns -/
+structure LRef where
+  h : Option Nat
+  u : Nat
+
+/-- `lift2` of two operands (taking `updates()` of an intermediate cell clones the stream out of it); every
+    constructor inside runs its own transaction: a collection follows -/
+def lift2R (b : B) (x y : LRef) : B × LRef :=
+  let acq (r : LRef) : List GOp := match r.h with | some h => [.deref h r.u] | none => []
+  let rel (r : LRef) : List GOp := match r.h with | some _ => [.dec r.u] | none => []
+  let b := b.emit (acq x ++ acq y)
+  let (b, h, m3) := mkLift2 b x.u y.u
+  (b.emit ([.eot] ++ rel x ++ rel y), { h := some h, u := m3 })
+
+def dropT (b : B) (t : LRef) : B := match t.h with | some h => b.emit [.dec h] | none => b
+
+def lift3R (b : B) (x y z : LRef) : B × LRef :=
+  let (b, t) := lift2R b x y
+  let (b, r) := lift2R b t z
+  (dropT b t, r)
+
+def lift4R (b : B) (w x y z : LRef) : B × LRef :=
+  let (b, t) := lift3R b w x y
+  let (b, r) := lift2R b t z
+  (dropT b t, r)
+
+def lift5R (b : B) (v w x y z : LRef) : B × LRef :=
+  let (b, t) := lift3R b v w x
+  let (b, r) := lift3R b t y z
+  (dropT b t, r)
+
+def lift6R (b : B) (u v w x y z : LRef) : B × LRef :=
+  let (b, t) := lift4R b u v w x
+  let (b, r) := lift3R b t y z
+  (dropT b t, r)
+
 /-- `Operational::defer` of stream node `a`: output sink with a weak listener in its keep-alive -/
 def mkDefer (b : B) (a : Nat) : B × Nat :=
   let (b, out) := b.node "Stream::new" []
   let (b, _, li) := mkListen b a
   (b.emit [.edge out li, .dec li], out)
 
-def compile (e : Env) (next : Nat) (ws : List String) : R :=
+def compileRaw (e : Env) (next : Nat) (ws : List String) : R :=
   let fresh (x : String) : Bool := (e.find x).isNone
   match ws with
   | ["graphdump"] => .dump
@@ -162,10 +211,10 @@ def compile (e : Env) (next : Nat) (ws : List String) : R :=
   | ["end"] => .close
   | ["send", _, _] => .quiet [.eot]
   | ["post", _, _] => .quiet [.eot]
-  | ["ssink", x] => if fresh x then .ops [.new "Stream::new"] (e.put x (.ssink next)) else .skip
+  | ["ssink", x] => if fresh x then .ops [.new "Stream::new", .sdeps next []] (e.put x (.ssink next)) else .skip
   | ["ssinkc", x, _] =>
-    if fresh x then .ops [.new "Stream::_new_with_coalescer"] (e.put x (.ssink next)) else .skip
-  | ["never", x] => if fresh x then .ops [.new "Stream::new"] (e.put x (.stream next)) else .skip
+    if fresh x then .ops [.new "Stream::_new_with_coalescer", .sdeps next []] (e.put x (.ssink next)) else .skip
+  | ["never", x] => if fresh x then .ops [.new "Stream::new", .sdeps next []] (e.put x (.stream next)) else .skip
   | ["csink", x, _] =>
     if fresh x then
       let b : B := { next := next }
@@ -247,24 +296,23 @@ def compile (e : Env) (next : Nat) (ws : List String) : R :=
       let (b, h, m3) := mkLift2 { next := next, ops := acq1 ++ acq2 } ua ub
       .ops (b.emit [.dec ua, .dec ub]).ops (e.put x (.cell h m3))
     | _, _, _ => .skip
-  | "liftn" :: x :: c1 :: c2 :: cs =>
-    -- lift3..6 : lift2 (as pairs) folded from the left, the intermediate cells dropped at the end
-    match e.find x, (e.find c1).bind updRef, (e.find c2).bind updRef,
-          mapM' (fun c => (e.find c).bind updRef) cs with
-    | none, some (acq1, u1), some (acq2, u2), some refs =>
-      if 1 ≤ cs.length && cs.length ≤ 4 then
-        let b : B := { next := next, ops := acq1 ++ acq2 ++ (refs.map (·.1)).flatten }
-        let (b, h0, m0) := mkLift2 b u1 u2
-        let (b, h, m, tmp) := refs.foldl (fun (acc : B × Nat × Nat × List Nat) r =>
-          let (b, h, m, tmp) := acc
-          -- `updates()` of the intermediate cell, lift with the next one
-          let b := b.emit [.deref h m]
-          let (b, h', m') := mkLift2 b m r.2
-          (b.emit [.dec m], h', m', tmp ++ [h])) (b, h0, m0, [])
-        .ops (b.emit (tmp.map GOp.dec ++ [.dec u1, .dec u2] ++ refs.map fun r => GOp.dec r.2)).ops
-          (e.put x (.cell h m))
-      else .skip
-    | _, _, _, _ => .skip
+  | "liftn" :: x :: cs =>
+    -- lift3..6 are built from lift2/lift3/lift4 on tuples (`cell.rs`); an intermediate cell is a temporary of the
+    -- call that made it and is dropped when that call returns
+    match e.find x, mapM' (fun c => (e.find c).bind updRef) cs with
+    | none, some refs =>
+      let b : B := { next := next, ops := (refs.map (·.1)).flatten }
+      let us := refs.map fun r => ({ h := none, u := r.2 } : LRef)
+      let res : Option (B × LRef) := match us with
+        | [p, q, r] => some (lift3R b p q r)
+        | [p, q, r, t] => some (lift4R b p q r t)
+        | [p, q, r, t, v] => some (lift5R b p q r t v)
+        | [p, q, r, t, v, w] => some (lift6R b p q r t v w)
+        | _ => none
+      match res with
+      | some (b, r) => .ops (b.emit (refs.map fun r => GOp.dec r.2)).ops (e.put x (.cell (r.h.getD 0) r.u))
+      | none => .skip
+    | _, _ => .skip
   | ["accum", x, s, _, _] =>
     match e.find x, (e.find s).bind streamRef with
     | none, some (acq, a) =>
@@ -273,7 +321,7 @@ def compile (e : Env) (next : Nat) (ws : List String) : R :=
       let (b, sl) := b.node "StreamLoop::new" [l]
       let (b, h) := b.node "Cell::hold" [l, l, l]
       let (b, m) := b.node "Stream::map" [a, a, h]
-      .ops (b.emit [.edge l m, .edge l m, .dec m, .dec l, .dec sl, .dec a]).ops (e.put x (.cell h l))
+      .ops (b.emit [.edge l m, .edge l m, .sadd l m, .dec m, .dec l, .dec sl, .dec a]).ops (e.put x (.cell h l))
     | _, _ => .skip
   | ["collect", x, s, _, _] =>
     match e.find x, (e.find s).bind streamRef with
@@ -285,7 +333,7 @@ def compile (e : Env) (next : Nat) (ws : List String) : R :=
       let (b, m) := b.node "Stream::map" [a, a, h]
       let (b, e1) := b.node "Stream::map" [m, m]
       let (b, e2) := b.node "Stream::map" [m, m]
-      .ops (b.emit [.edge l e2, .edge l e2, .dec e2, .dec m, .dec h, .dec l, .dec sl, .dec a]).ops
+      .ops (b.emit [.edge l e2, .edge l e2, .sadd l e2, .dec e2, .dec m, .dec h, .dec l, .dec sl, .dec a]).ops
         (e.put x (.stream e1))
     | _, _ => .skip
   | ["defer", x, s] =>
@@ -314,7 +362,7 @@ def compile (e : Env) (next : Nat) (ws : List String) : R :=
   | ["sloopclose", l, s] =>
     match e.find l, (e.find s).bind streamRef with
     | some (.sloop sl ln), some (acq, a) =>
-      .ops (acq ++ [.deref sl ln, .edge ln a, .edge ln a, .dec ln, .dec a]) e
+      .ops (acq ++ [.deref sl ln, .edge ln a, .edge ln a, .sadd ln a, .dec ln, .dec a]) e
     | _, _ => .skip
   | ["cloop", x] =>
     if fresh x then
@@ -327,7 +375,7 @@ def compile (e : Env) (next : Nat) (ws : List String) : R :=
   | ["cloopclose", l, c] =>
     match e.find l, (e.find c).bind cellRef, (e.find c).bind updRef with
     | some (.cloop sl ln _), some _, some (acq, u) =>
-      .ops (acq ++ [.deref sl ln, .edge ln u, .edge ln u, .dec ln, .dec u]) e
+      .ops (acq ++ [.deref sl ln, .edge ln u, .edge ln u, .sadd ln u, .dec ln, .dec u]) e
     | _, _, _ => .skip
   | ["router", r, s, _] =>
     match e.find r, (e.find s).bind streamRef with
@@ -390,6 +438,18 @@ def compile (e : Env) (next : Nat) (ws : List String) : R :=
     | _, _ => .skip
   | ["---"] => .bad
   | _ => .na
+
+/-- constructors that run a transaction of their own (`Stream::_new`, `Cell::_new`, `listen`): when no
+    transaction is open, a collection follows the construction -/
+def ctorWithTxn : List String :=
+  ["ssink", "never", "csink", "map", "mapto", "filter", "once", "filteropt", "merge", "orelse",
+   "snapshot", "snapshot1", "snapshotn", "gate", "hold", "holdlazy", "value", "mapc", "lift2", "accum", "collect",
+   "defer", "split", "sloop", "cloop", "route", "listen", "listenweak"]
+
+def compile (e : Env) (next : Nat) (ws : List String) : R :=
+  match compileRaw e next ws with
+  | .ops l env => if ctorWithTxn.contains (ws.headD "") then .ops (l ++ [.eot]) env else .ops l env
+  | r => r
 
 structure PSt where
   gs : GcScript.St := {}
